@@ -523,3 +523,41 @@ Definition rule_eval (optext : bytes) (ltbl : list (N * N)) (rxm : option (list 
 Definition copy_of_capture (tx : txvars) (i : nat) : bytes :=
   let k := itoa (N.of_nat i) in
   expand_token tx (MTx (sstr "tx." ++ k) k).
+
+(* ------------------------------------------------------------------------------------ *)
+(* several evaluations in the same transaction state: nothing resets TX.0-9 between them  *)
+(* (Transaction.resetCaptures is never called), every capturing evaluation overwrites the  *)
+(* entries of the groups / hits it has and leaves the others as they were                  *)
+(* ------------------------------------------------------------------------------------ *)
+Inductive cap_step :=
+  | SRx (m : option (list Z)) (value : bytes)              (* capturing @rx, m = index vector *)
+  | SPm (ltbl : list (N * N)) (arg value : bytes).         (* capturing @pm *)
+Definition step_eval (s : cap_step) : bool * list bytes :=
+  match s with
+  | SRx m v => rx_eval m true v
+  | SPm t a v => pm_eval (pm_phrases t a) true v
+  end.
+(* result and TX state after each step *)
+Fixpoint capture_seq (tx : txvars) (steps : list cap_step) : list (bool * txvars) :=
+  match steps with
+  | [] => []
+  | s :: r => let '(b, caps) := step_eval s in
+              let tx' := store_captures true tx 0 caps in
+              (b, tx') :: capture_seq tx' r
+  end.
+
+(* consecutive rules of one phase, each on its own value: (operator text, lower table, rx
+   index vector, capture?, value); None = some rule does not compile *)
+Definition rule_in := (bytes * list (N * N) * option (list Z) * bool * bytes)%type.
+Fixpoint rules_eval (tx : txvars) (rules : list rule_in) : option (list bool * txvars) :=
+  match rules with
+  | [] => Some ([], tx)
+  | (o, t, m, cap, v) :: r =>
+    match rule_eval o t m cap tx v with
+    | None => None
+    | Some (b, tx') => match rules_eval tx' r with
+                       | None => None
+                       | Some (bs, tx'') => Some (b :: bs, tx'')
+                       end
+    end
+  end.
